@@ -13,7 +13,7 @@ import (
 func init() {
 	register(&Spec{ID: "C14", Title: "Transport failure yields a clean prefix and then an error", Run: runC14,
 		Meta: core.Meta{
-			Explanation: "Decides that the error path from the transport to the consumer is unbroken and that only completely received packets are parsed. R14.1: every transport read (io.Reader.Read / io.ReadFull on the connection) in PacketHeader.ReadFrom and Packet.ReadFrom has its error tested at once and every failure return carries the read error (%w), the error itself or ErrEOFAfterZeroRead — never nil. R14.2: a nil-error return of Packet.ReadFrom is dominated by totalBytes == Header.Length, a nil-error return of PacketHeader.ReadFrom by the full-header read succeeding; every return of Packet.ReadFrom whose error may satisfy errors.Is(err, io.EOF) (which Conn.ReadFrom treats as an orderly end and still parses the packet) lies only on paths where the body is complete or the error is not EOF. R14.3: every CFG cycle that contains a transport read tests a context's Err() with an exit, and every way back to the loop head after a failed read passes a context Err() test (bounded partial-body wait). R14.4: in Conn.ReadFrom every path to WritePacket(packet) has err == nil or errors.Is(err, io.EOF), and conversely every path with err == nil or EOF reaches WritePacket (or reports an unknown channel on Conn.errCh) before it loops or returns; the complementary path sends an error wrapping err on Conn.errCh; the loop ends after an EOF. R14.5: NextPackage receives from Conn.errCh in its blocking select and returns a non-nil error wrapping the received value. R14.6: in NextPackage every path to the blocking select (which offers the error queues) first passes the non-blocking receive from packageCh: packages parsed from completely received packets are delivered before the transport error that followed them. R14.8: Conn.errCh and Channel.errCh are sent to only on the reader goroutine's path (functions statically reachable from (*Conn).ReadFrom); a consumer-side function (e.g. a failed request write in sendPacket) that also sends there blocks its caller — without looking at the caller's context — as soon as the bounded queue is full, which on a dead transport it is. R14.7: every return of the reader goroutine is under `connection context done` or `errors.Is(err, io.EOF)`; a reader that gives up on other errors stops refilling Conn.errCh and only the first waiter learns that the transport died.",
+			Explanation: "Decides that the error path from the transport to the consumer is unbroken and that only completely received packets are parsed. R14.1: every transport read (io.Reader.Read / io.ReadFull on the connection) in PacketHeader.ReadFrom and Packet.ReadFrom has its error tested at once and every failure return carries the read error (%w), the error itself or ErrEOFAfterZeroRead — never nil. R14.2: a nil-error return of Packet.ReadFrom is dominated by totalBytes == Header.Length, a nil-error return of PacketHeader.ReadFrom by the full-header read succeeding; every return of Packet.ReadFrom whose error may satisfy errors.Is(err, io.EOF) (which Conn.ReadFrom treats as an orderly end and still parses the packet) lies only on paths where the body is complete or the error is not EOF. R14.3: every CFG cycle that contains a transport read tests a context's Err() with an exit, and every way back to the loop head after a failed read passes a context Err() test (bounded partial-body wait). R14.4: in Conn.ReadFrom every path to WritePacket(packet) has err == nil or errors.Is(err, io.EOF), and conversely every path with err == nil or EOF reaches WritePacket (or reports an unknown channel on Conn.errCh) before it loops or returns; the complementary path sends an error wrapping err on Conn.errCh; the loop ends after an EOF. R14.5: NextPackage receives from Conn.errCh in its blocking select and returns a non-nil error wrapping the received value. R14.6: in NextPackage every path to the blocking select (which offers the error queues) first passes the non-blocking receive from packageCh: packages parsed from completely received packets are delivered before the transport error that followed them. R14.9: in Packet.ReadFrom every context whose Err() decides whether an EOF-like read ends the wait is, on every path, the result of context.WithTimeout(ctx, timeout) with the function's timeout parameter — a wait that is only armed by the first body byte never ends when the peer dies between header and body. R14.8: Conn.errCh and Channel.errCh are sent to only on the reader goroutine's path (functions statically reachable from (*Conn).ReadFrom); a consumer-side function (e.g. a failed request write in sendPacket) that also sends there blocks its caller — without looking at the caller's context — as soon as the bounded queue is full, which on a dead transport it is. R14.7: every return of the reader goroutine is under `connection context done` or `errors.Is(err, io.EOF)`; a reader that gives up on other errors stops refilling Conn.errCh and only the first waiter learns that the transport died.",
 			NotDecided:  "Which prefix of packages is delivered, the spurious-DONE clause and elapsed time are not decided (crash points are not enumerated).",
 			Assumptions: []string{"io.ReadFull returns err == nil only when the buffer was filled (standard library contract)"},
 		}})
@@ -41,6 +41,8 @@ func runC14(r *core.Run) {
 	r.Rule("R14.7", "the reader goroutine only ends when the connection context is done or after an EOF", 2, false)
 	r.Rule("R14.8", "only the reader goroutine reports on the error queues; request writes return their error", 1, false)
 	defer c14ErrQueueWriters(r)
+	r.Rule("R14.9", "the wait for the rest of a packet is bounded by the read timeout from the first byte on", 1, false)
+	defer c14TimeoutArmed(r)
 
 	eofZero := p.Global("tds", "ErrEOFAfterZeroRead")
 	isEOFZero := func(v ssa.Value) bool {
@@ -815,4 +817,78 @@ func c14ErrQueueWriters(r *core.Run) {
 		}
 	}
 	r.Check(n > 0, "R14.8", "error queues are written by the reader goroutine only", token.NoPos, fmt.Sprintf("%d sends on Conn.errCh/Channel.errCh, all on the reader path", n), "no send on the error queues seen: the rule does not see the code")
+}
+
+// c14TimeoutArmed: R14.9.
+func c14TimeoutArmed(r *core.Run) {
+	p := r.Prog
+	fn := p.Func("tds", "Packet", "ReadFrom")
+	var ctxP, toP *ssa.Parameter
+	for _, pa := range fn.Params {
+		if core.IsContextType(pa.Type()) {
+			ctxP = pa
+		}
+		if core.IsNamedType(pa.Type(), "time", "Duration") {
+			toP = pa
+		}
+	}
+	if ctxP == nil || toP == nil {
+		r.Unknown("R14.9", "Packet.ReadFrom: timeout context", fn.Pos(), "ctx / timeout parameters not found")
+		return
+	}
+	var armed func(v ssa.Value, seen map[ssa.Value]bool) (bool, string)
+	armed = func(v ssa.Value, seen map[ssa.Value]bool) (bool, string) {
+		if seen[v] {
+			return true, ""
+		}
+		seen[v] = true
+		switch x := v.(type) {
+		case *ssa.Phi:
+			for _, e := range x.Edges {
+				if ok, why := armed(e, seen); !ok {
+					return false, why
+				}
+			}
+			return len(x.Edges) > 0, ""
+		case *ssa.Extract:
+			if c, ok := x.Tuple.(*ssa.Call); ok && core.IsPkgFunc(c, "context", "WithTimeout") && x.Index == 0 {
+				if core.Strip(c.Call.Args[1]) == ssa.Value(toP) {
+					return true, ""
+				}
+				return false, "a WithTimeout whose duration is not the timeout parameter"
+			}
+		case *ssa.UnOp:
+			// a variable captured by a closure lives in an Alloc: every value stored into it counts
+			if al, ok := x.X.(*ssa.Alloc); ok && x.Op == token.MUL {
+				n := 0
+				for _, ref := range *al.Referrers() {
+					if st, isSt := ref.(*ssa.Store); isSt && st.Addr == ssa.Value(al) {
+						n++
+						if ok2, why := armed(st.Val, seen); !ok2 {
+							return false, why
+						}
+					}
+				}
+				return n > 0, "never assigned"
+			}
+		}
+		return false, core.Expr(v)
+	}
+	n := 0
+	for _, c := range core.Calls(fn) {
+		call, ok := c.(*ssa.Call)
+		if !ok {
+			continue
+		}
+		recv, isErr := core.IsContextErrCall(call)
+		if !isErr || core.Strip(recv) == ssa.Value(ctxP) {
+			continue // the caller's own context is tested separately (R14.3)
+		}
+		n++
+		ok2, why := armed(core.Strip(recv), map[ssa.Value]bool{})
+		r.Check(ok2, "R14.9", "Packet.ReadFrom: the context that ends the EOF wait carries the read timeout on every path", call.Pos(), "context.WithTimeout(ctx, timeout) on every path", "the context consulted here can be "+why+", which carries no read timeout: when the peer dies at that point (e.g. between header and first body byte) the read loop spins for ever and no error is queued")
+	}
+	if n == 0 {
+		r.Bad("R14.9", "Packet.ReadFrom: the context that ends the EOF wait carries the read timeout on every path", fn.Pos(), "Packet.ReadFrom consults no timeout context: a peer that stops sending in the middle of a packet is never detected")
+	}
 }
